@@ -237,6 +237,99 @@ def check_malformed(ctx, tz):
             ctx.violation('malformed-accepted', {'definition': name}, 'tzical accepted it: keys %r -> %r' % (r.keys(), z))
 
 
+VALID_BASE = '''BEGIN:VTIMEZONE
+TZID:US Eastern Time
+BEGIN:STANDARD
+DTSTART:20001029T020000
+RRULE:FREQ=YEARLY;BYDAY=-1SU;BYMONTH=10
+TZOFFSETFROM:-0400
+TZOFFSETTO:-0500
+TZNAME:Eastern Standard Time
+END:STANDARD
+BEGIN:DAYLIGHT
+DTSTART:20000402T020000
+RRULE:FREQ=YEARLY;BYDAY=1SU;BYMONTH=4
+TZOFFSETFROM:-0500
+TZOFFSETTO:-0400
+TZNAME:Eastern Daylight Time
+END:DAYLIGHT
+END:VTIMEZONE
+'''
+OTHER_ZONE = ('BEGIN:VTIMEZONE\nTZID:Other\nBEGIN:STANDARD\nDTSTART:20001029T020000\nTZOFFSETFROM:-0700\nTZOFFSETTO:-0800\n'
+              'END:STANDARD\nEND:VTIMEZONE\n')
+
+
+def check_required_lines(ctx, tz):
+    """every required line (TZID, each component's DTSTART / TZOFFSETFROM / TZOFFSETTO) deleted in turn from a valid
+    definition - with RRULEs, with RDATEs, alone and as the second of two zones - must give ValueError"""
+    variants = {'rrule': VALID_BASE,
+                'rdate': VALID_BASE.replace('RRULE:FREQ=YEARLY;BYDAY=-1SU;BYMONTH=10', 'RDATE:20011028T020000')
+                                   .replace('RRULE:FREQ=YEARLY;BYDAY=1SU;BYMONTH=4', 'RDATE:20010401T020000')}
+    for vname, base in variants.items():
+        try:
+            tz.tzical(io.StringIO(base)).get()
+        except Exception as e:
+            ctx.violation('definition-rejected', {'definition': 'valid-base-' + vname}, repr(e))
+            continue
+        lines = base.splitlines()
+        for i, line in enumerate(lines):
+            if not line.startswith(('TZID', 'DTSTART', 'TZOFFSETFROM', 'TZOFFSETTO')):
+                continue
+            broken = '\n'.join(lines[:i] + lines[i + 1:]) + '\n'
+            for where, text in (('alone', broken), ('second', OTHER_ZONE + broken)):
+                name = '%s-without-line-%d-%s-%s' % (vname, i, line.split(':')[0], where)
+                ctx.ev()
+                ctx.count('malformed_definitions')
+                ctx.count('required_line_deletions')
+                ctx.distinct('malformed|' + name)
+                try:
+                    r = tz.tzical(io.StringIO(text))
+                    got = r.keys()
+                except ValueError:
+                    continue
+                except Exception as e:
+                    ctx.violation('malformed-wrong-exception', {'definition': name, 'text': text}, '%s: %s' % (type(e).__name__, e))
+                    continue
+                ctx.violation('malformed-accepted', {'definition': name, 'text': text}, 'tzical accepted it: keys %r' % (got,))
+
+
+def check_fold_positions(ctx, tz):
+    """a content line may be folded anywhere (CRLF or LF followed by ONE blank or tab), also directly in front of a blank
+    that belongs to the value: every folding of the definition denotes the same zone, names and abbreviations"""
+    ref = tz.tzical(io.StringIO(VALID_BASE))
+    keys = ref.keys()
+    zr = ref.get()
+    probes = [D.datetime(2010, 1, 15, 12), D.datetime(2010, 7, 15, 12), D.datetime(1990, 7, 1)]
+    want = [(w.replace(tzinfo=zr).utcoffset(), w.replace(tzinfo=zr).tzname()) for w in probes]
+    lines = VALID_BASE.splitlines()
+    for li, line in enumerate(lines):
+        for pos in range(1, len(line)):
+            for nl, ws in (('\r\n', ' '), ('\n', ' '), ('\n', '\t')):
+                if (li + pos) % 3 and not (line[pos] == ' ' or line[pos - 1] == ' '):
+                    continue          # every third position, and always around blanks of the value
+                text = nl.join(lines[:li] + [line[:pos] + nl + ws + line[pos:]] + lines[li + 1:]) + nl
+                ctx.ev()
+                ctx.count('fold_positions')
+                if line[pos] == ' ':
+                    ctx.count('fold_before_value_blank')
+                case = {'definition': 'fold', 'line': line, 'position': pos, 'newline': repr(nl), 'marker': repr(ws)}
+                try:
+                    r = tz.tzical(io.StringIO(text))
+                    z = r.get()
+                    got = [(w.replace(tzinfo=z).utcoffset(), w.replace(tzinfo=z).tzname()) for w in probes]
+                except Exception as e:
+                    if ws == '\t' and isinstance(e, ValueError):
+                        # RFC 5545 also allows HTAB as the fold marker; dateutil's readers only unfold on a blank and reject
+                        # the rest with ValueError - not a wrong zone, and the property does not spell out the marker
+                        ctx.count('tab_fold_rejected')
+                        continue
+                    ctx.violation('folded-definition-rejected', case, '%s: %s' % (type(e).__name__, e))
+                    continue
+                if r.keys() != keys or got != want:
+                    ctx.violation('folded-definition-differs', case, 'keys %r / answers %r; unfolded: %r / %r' % (r.keys(), got, keys, want))
+    ctx.distinct('fold-sweep')
+
+
 def check_addressing(ctx, tz, rng):
     a, b = gen_m_triple(rng), gen_m_triple(rng)
     text = tzzoo.vtimezone_text(a, tzid='Zone/A') + tzzoo.vtimezone_text(b, tzid='Zone/B', order='DS')
@@ -317,6 +410,8 @@ def run(ctx):
         check_malformed(ctx, tz)
         check_addressing(ctx, tz, rng)
         check_directed_zones(ctx, tz)
+        check_required_lines(ctx, tz)
+        check_fold_positions(ctx, tz)
         pz = PZ.PosixZone('EST', -18000, 'EDT', -14400, ('M', 3, 2, 0), 7200, ('M', 11, 1, 0), 7200)
         tz_sched.sweep(ctx, tz, pz, rng, 150 if ctx.tier == 'quick' else 2500)
         for k, v in hits.items():
